@@ -1074,25 +1074,42 @@ func (g *gen) blockStmt() {
 	for _, t := range p {
 		g.expr(t, d-1)
 	}
-	g.open("block", 0x02, p, r, false)
-	for i := len(p) - 1; i >= 0; i-- { // consume params
-		if g.chance(50, "keepparam") {
-			g.localSet(g.scratch(p[i]))
-		} else {
-			g.op1("drop", 0x1a)
+	// the same shape as a typed if/else: both arms receive the parameters and yield the results
+	asIf := g.chance(30, "blockasif")
+	if asIf {
+		g.expr(I32, d-1)
+		g.open("if", 0x04, p, r, false)
+		g.stat("typed-if")
+	} else {
+		g.open("block", 0x02, p, r, false)
+	}
+	arm := func(n int) {
+		for i := len(p) - 1; i >= 0; i-- { // consume params
+			if g.chance(50, "keepparam") {
+				g.localSet(g.scratch(p[i]))
+			} else {
+				g.op1("drop", 0x1a)
+			}
+		}
+		term := g.stmts(n)
+		if !term && g.chance(60, "branch") {
+			term = g.branch()
+		}
+		if !term {
+			term = g.stmts(2)
+		}
+		if !term {
+			for _, t := range r {
+				g.expr(t, d-1)
+			}
 		}
 	}
-	term := g.stmts(g.cfg.MaxStmts - 1)
-	if !term && g.chance(60, "branch") {
-		term = g.branch()
-	}
-	if !term {
-		term = g.stmts(2)
-	}
-	if !term {
-		for _, t := range r {
-			g.expr(t, d-1)
-		}
+	arm(g.cfg.MaxStmts - 1)
+	if asIf {
+		g.f.ind--
+		g.f.emit("else", []byte{0x05})
+		g.f.ind++
+		arm(2)
 	}
 	g.close()
 	g.consumeAll(r)
